@@ -298,17 +298,33 @@ fn request(server: &mut YensServer, line: &str, budget: std::time::Duration) -> 
     }
 }
 
-/// what the helper process executes for one request line
+/// what the helper process executes for one request line:
+/// `{"case": <SearchCase>, "iter_limit": <u64 or null>}` (the limit is the search instance's
+/// iteration limit, applied to every sub-search; C10 uses it)
 pub fn yens_server_handle(line: &str) -> String {
-    let out: RunOutcome = match serde_json::from_str::<SearchCase>(line) {
+    #[derive(Deserialize)]
+    struct Req {
+        case: SearchCase,
+        #[serde(default)]
+        iter_limit: Option<u64>,
+    }
+    let out: RunOutcome = match serde_json::from_str::<Req>(line) {
         Err(e) => RunOutcome::IsolationFailed(format!("server cannot decode case: {}", e)),
-        Ok(case) => match build_si(&case.spec, BuildOpts::default()) {
-            Err(e) => RunOutcome::Done(Err(ErrKind::Build(e))),
-            Ok(built) => match crate::engine::guard(|| run_plain(&case, &built.si)) {
-                Ok(r) => RunOutcome::Done(r),
-                Err((loc, msg)) => RunOutcome::YensPanic(loc, msg),
-            },
-        },
+        Ok(Req { case, iter_limit }) => {
+            let opts = BuildOpts {
+                termination: iter_limit.map(|limit| {
+                    routee_compass_core::model::termination::termination_model::TerminationModel::IterationsLimit { limit }
+                }),
+                ..BuildOpts::default()
+            };
+            match build_si(&case.spec, opts) {
+                Err(e) => RunOutcome::Done(Err(ErrKind::Build(e))),
+                Ok(built) => match crate::engine::guard(|| run_plain(&case, &built.si)) {
+                    Ok(r) => RunOutcome::Done(r),
+                    Err((loc, msg)) => RunOutcome::YensPanic(loc, msg),
+                },
+            }
+        }
     };
     serde_json::to_string(&out).unwrap_or_else(|_| "null".to_string())
 }
@@ -340,7 +356,12 @@ pub fn yens_server_main() -> ! {
 }
 
 fn run_yens_isolated(case: &SearchCase) -> RunOutcome {
-    let line = match serde_json::to_string(case) {
+    run_yens_isolated_limited(case, None)
+}
+
+/// Yen in the helper process with an iteration limit on the search instance (None = the default)
+pub fn run_yens_isolated_limited(case: &SearchCase, iter_limit: Option<u64>) -> RunOutcome {
+    let line = match serde_json::to_string(&serde_json::json!({"case": case, "iter_limit": iter_limit})) {
         Ok(l) => l,
         Err(e) => return RunOutcome::IsolationFailed(e.to_string()),
     };
